@@ -299,6 +299,8 @@ def run(tier):
         r4(prog, rep)
         from . import c01
         c01.ctx_typestate(prog, rep, [UNIT])
+        # the generator's output is HMAC-SHA256 of what it feeds in: the streaming structure of alg/sha256.c (anchor of this property)
+        c01.sha256_rules(cfg, rep)
     n = len(configs)
     rep.require_min("R1-failclosed", 9 * n)
     rep.require_min("R3-template", 6 * n)
